@@ -83,6 +83,7 @@ class HllArray : public HllSketchImpl<A> {
     void putNumAtCurMin(uint32_t numAtCurMin);
 
     static void checkCounts(target_hll_type tgtHllType, uint8_t lgK, uint32_t numAtCurMin, uint32_t auxCount, const uint8_t* hllBytes);
+    static void checkAuxEntries(uint8_t lgK, const uint8_t* hllBytes, const AuxHashMap<A>& auxHashMap);
     static uint32_t hllArrBytes(target_hll_type tgtHllType, uint8_t lgConfigK);
     static uint32_t hll4ArrBytes(uint8_t lgConfigK);
     static uint32_t hll6ArrBytes(uint8_t lgConfigK);
